@@ -45,6 +45,9 @@ type env struct {
 	probeCounter atomic.Int64
 	salt         uint16
 
+	// inflight, if not nil, measures how many exchanges of one path overlap.
+	inflight *concurrency
+
 	mu          sync.Mutex
 	canons      map[int]map[string]canon
 	wantSamples map[string]struct{}
@@ -357,6 +360,12 @@ func (s *streamSession) exchange(in *input, wantAnswer bool) (o observation) {
 func (s *streamSession) burst(ins []*input) (obs []observation, unmatched [][]byte) {
 	obs = make([]observation, len(ins))
 
+	if s.p.halfClose {
+		// One connection per burst: it ends with the burst.
+		s.drop()
+		defer s.afterHalfClose()
+	}
+
 	err := s.ensure()
 	if err != nil {
 		s.e.infraFailure(s.p.name+":dial", err)
@@ -384,6 +393,21 @@ func (s *streamSession) burst(ins []*input) (obs []observation, unmatched [][]by
 		}
 
 		return obs, nil
+	}
+
+	if s.p.halfClose {
+		// FIN / close_notify right behind the queries: the server's read loop
+		// ends while the queries are still being handled.
+		err = s.c.CloseWrite()
+		if err != nil {
+			s.e.infraFailure(s.p.name+":close-write", err)
+			s.drop()
+			for i := range obs {
+				obs[i].ambiguous = "half-close failed: " + err.Error()
+			}
+
+			return obs, nil
+		}
 	}
 
 	byID := map[uint16]int{}
@@ -431,6 +455,25 @@ func (s *streamSession) burst(ins []*input) (obs []observation, unmatched [][]by
 	}
 
 	return obs, unmatched
+}
+
+// afterHalfClose checks that nothing but the end of the stream follows the
+// answers of a half-closed burst.
+func (s *streamSession) afterHalfClose() {
+	if s.c == nil {
+		return
+	}
+
+	frames, closed, rest := s.c.ReadUntilClosed(2 * time.Second)
+	if len(frames) > 0 || len(rest) > 0 {
+		s.e.r.Violation("any:"+s.p.name+":extra-frame-at-end", "the server sent data that belongs to no request",
+			map[string]any{"path": s.p.name, "frames": len(frames), "first_hex": fmt.Sprintf("%x", append(frames, rest)[0])})
+	}
+	if closed {
+		s.e.r.Bucket("halfclose_server_closed_after_answers:"+s.p.name, 1)
+	}
+
+	s.drop()
 }
 
 func (s *streamSession) finish() {
@@ -724,7 +767,8 @@ func (e *env) report(p *pathDef, in *input, exp expectation, res tbench.Result, 
 			key = "accept/" + exp.tag + ":" + p.name + ":" + pr.key
 		}
 
-		if p.family == famDoQ && extensionSensitive(in.wire, in.tail) {
+		if p.family == famDoQ && (res.Outcome == tbench.Answered || res.Outcome == tbench.QUICError) &&
+			extensionSensitive(in.wire, in.tail) {
 			// The message means something else when other bytes follow it in
 			// memory, and the DoQ server did not treat it the way its own
 			// bytes demand (answered although undecodable, answered with a
@@ -757,7 +801,14 @@ func (e *env) evalOne(p *pathDef, s session, in *input) {
 	exp := expect(p, in)
 	wantAnswer := exp.kind == expRef || exp.kind == expRcode || exp.kind == expServfail
 
+	if e.inflight != nil {
+		e.inflight.enter(p.name)
+	}
 	o := s.exchange(in, wantAnswer)
+	if e.inflight != nil {
+		e.inflight.leave(p.name)
+	}
+
 	e.account(p, in, exp, o)
 }
 
@@ -1073,6 +1124,7 @@ func (e *env) runPipelined(p *pathDef, s *streamSession, mine []*input) {
 	}
 
 	var burst []item
+	nBursts := 0
 	flush := func() {
 		if len(burst) == 0 {
 			return
@@ -1108,8 +1160,14 @@ func (e *env) runPipelined(p *pathDef, s *streamSession, mine []*input) {
 		}
 
 		burst = append(burst, item{in, exp})
-		if len(burst) == p.pipelined {
+		want := p.pipelined
+		if p.halfClose {
+			// Bursts of 1, 2, … queries in turn.
+			want = 1 + nBursts%p.pipelined
+		}
+		if len(burst) >= want {
 			flush()
+			nBursts++
 		}
 	}
 
